@@ -1,0 +1,31 @@
+// Copyright 2018 The go-python Authors.  All rights reserved.
+// Use of this source code is governed by a BSD-style
+// license that can be found in the LICENSE file.
+
+//go:build verif
+
+package compile
+
+import (
+	"github.com/go-python/gpython/ast"
+	"github.com/go-python/gpython/py"
+	"github.com/go-python/gpython/symtable"
+)
+
+// VerifCompileAst is Compile without the parsing step: it builds the symbol
+// table of an already parsed tree and compiles it.  It exists only under the
+// build tag `verif`, so that a verification harness can compile the SAME tree
+// more than once and detect a compiler that mutates its input.
+func VerifCompileAst(Ast ast.Ast, srcDesc string, futureFlags int, dont_inherit bool) (*py.Code, error) {
+	SymTable, err := symtable.NewSymTable(Ast, srcDesc)
+	if err != nil {
+		return nil, err
+	}
+	c := newCompiler(nil, compilerScopeModule)
+	c.Filename = srcDesc
+	err = c.compileAst(Ast, srcDesc, futureFlags, dont_inherit, SymTable)
+	if err != nil {
+		return nil, err
+	}
+	return c.Code, nil
+}
